@@ -1013,6 +1013,45 @@ func c10ChunkTimes(c *Ctx) {
 		}
 	})
 	if !found {
+		// the countdown kept in a struct: `x.n = x.n - 1`. It has to be the same struct from ack to ack; a copy made
+		// for each ack (a method with a value receiver, a struct passed by value) forgets the countdown at once.
+		lost := false
+		var where ssa.Instruction
+		eachInstr(af, func(in ssa.Instruction) {
+			st, ok := in.(*ssa.Store)
+			if !ok {
+				return
+			}
+			fa, ok := st.Addr.(*ssa.FieldAddr)
+			if !ok {
+				return
+			}
+			b, ok := st.Val.(*ssa.BinOp)
+			if !ok || b.Op != token.SUB || !isConstIntV(1)(b.Y) {
+				return
+			}
+			ld, ok := b.X.(*ssa.UnOp)
+			if !ok || ld.Op != token.MUL {
+				return
+			}
+			fa2, ok := ld.X.(*ssa.FieldAddr)
+			if !ok || fa2.Field != fa.Field || fa2.X != fa.X {
+				return
+			}
+			if intoLocalCopy(fa) {
+				if a, isA := fa.X.(*ssa.Alloc); isA {
+					for _, r := range referrersOf(a) {
+						if s2, isS := r.(*ssa.Store); isS && s2.Addr == ssa.Value(a) {
+							lost, where = true, in // the whole struct is stored into the local first: a copy
+						}
+					}
+				}
+			}
+		})
+		if lost {
+			c.bad("pipelineRecvAck/post-pause-countdown-persists", c.ipos(where), "the countdown that suspends the chunk-time statistics after a pause is decremented in a copy of the struct that holds it (value receiver / by-value parameter): it never counts down, every ack in flight across a pause is timed with the pause included, and a later stop waits twice that long before telling the peer")
+			return
+		}
 		c.undecided("pipelineRecvAck/post-pause-countdown", "the countdown that suspends the statistics after a pause was not found")
 		return
 	}
